@@ -275,6 +275,14 @@ struct World
     return false;
   }
 
+  static bool strict_descendant(M const *x, M const *anc)
+  {
+    for (M const *p = x->parent; p != nullptr; p = p->parent)
+      if (p == anc)
+        return true;
+    return false;
+  }
+
   int free_slot() const
   {
     for (unsigned s = 0; s < SLOTS; ++s)
@@ -664,14 +672,21 @@ struct World
     {
       Pair const b = all[op.getu("other") % all.size()];
       bool const self = a.t == b.t;
-      if (!self && related(a.m, b.m))
+      // the source may be a strict descendant of the target (the copy is complete before the old
+      // children die); a source that is an ancestor of the target has no meaning
+      bool const from_descendant = !self && strict_descendant(b.m, a.m);
+      if (!self && related(a.m, b.m) && !from_descendant)
         return;
+      if (from_descendant)
+        ctx.probe("copy_assign_from_own_descendant");
       if (total_nodes() + mcount(*b.m) > MAX_NODES + mcount(ma))
         return;
       if (self)
         ctx.probe("self_copy_assign");
       if (a.m->parent != nullptr)
         ctx.probe("assign_to_inner_node");
+      long const aid = a.m->id;
+      long const bid = b.m->id;
       bool const ok = guarded(n, [&] { ta = static_cast<Tree const &>(*b.t); });
       if (ok)
       {
@@ -686,7 +701,7 @@ struct World
       }
       else
         after_fault({a.slot}, n);
-      ctx.ev("copy_assign " + std::to_string(a.m->id) + " = " + std::to_string(b.m->id) + (ok ? "" : " threw"));
+      ctx.ev("copy_assign " + std::to_string(aid) + " = " + std::to_string(bid) + (ok ? "" : " threw"));
       return;
     }
     if (n == "move_assign")
@@ -714,6 +729,29 @@ struct World
         x->parent = a.m;
       model[s].reset();
       ctx.ev("move_assign " + std::to_string(a.m->id) + " = root of slot" + std::to_string(s));
+      return;
+    }
+    if (n == "hoist")
+    {
+      // a = std::move(d) where d is a strict descendant of a: a takes d's value and children, the
+      // rest of a's old subtree (including d's shell) dies
+      std::vector<Pair> desc;
+      for (Pair const &p : all)
+        if (strict_descendant(p.m, a.m))
+          desc.push_back(p);
+      if (desc.empty())
+        return;
+      Pair const d = desc[op.getu("d") % desc.size()];
+      long const aid = a.m->id;
+      long const did = d.m->id;
+      nothrow(n, [&] { ta = std::move(*d.t); });
+      std::vector<std::unique_ptr<M>> newch = std::move(d.m->ch);
+      a.m->id = did;
+      a.m->ch = std::move(newch);
+      for (auto &x : a.m->ch)
+        x->parent = a.m;
+      ctx.probe(a.m->parent != nullptr ? "hoist_into_inner_node" : "hoist_into_root");
+      ctx.ev("hoist " + std::to_string(did) + " into " + std::to_string(aid));
       return;
     }
     if (n == "observe")
@@ -844,7 +882,7 @@ void generate(sim::Rng &rng, sim::Plan &p, bool)
   static char const *const names[] = {
       "new_root", "destroy_root", "push_v", "insert_v", "push_copy", "insert_copy", "push_root",
       "pop", "release", "erase1", "erase", "clear", "sort", "value", "swap", "copy_ctor",
-      "move_ctor", "copy_assign", "move_assign", "observe"};
+      "move_ctor", "copy_assign", "move_assign", "hoist", "observe"};
   std::vector<std::string> bag;
   for (auto const *o : names)
   {
@@ -885,6 +923,8 @@ void generate(sim::Rng &rng, sim::Plan &p, bool)
       op.set("pred", static_cast<long>(rng.below(2)));
     if (n == "swap" || n == "copy_assign" || n == "observe")
       op.set("other", static_cast<long>(rng.below(64)));
+    if (n == "hoist")
+      op.set("d", static_cast<long>(rng.below(64)));
     if (n == "swap")
       op.set("free", static_cast<long>(rng.below(2)));
     if (fault_pct != 0 && rng.below(100) < fault_pct)
